@@ -23,13 +23,21 @@ def run(chk):
         r = chk.rng.fork()
         nocase = r.chance(1, 5)
         dotall = r.chance(1, 4)
-        g = regen.ReGen(r.fork(), nocase, dotall)
+        wide = r.choice(["", "", "", "wide", "ascii wide"])
+        g = regen.ReGen(r.fork(), nocase, dotall, allow_anchor=not wide)
         ast = g.with_literal(r.range(1, 3))
         txt = regen.re_print(ast)
         sexp = regen.re_sexp(ast, nocase, dotall)
-        decl = "/%s/%s%s" % (txt.replace("/", "\\x2f"), "s" if dotall else "", " nocase" if nocase else "")
+        if wide == "wide":
+            sexp = regen.widen_sexp(sexp)
+        elif wide:
+            sexp = "( alt %s %s )" % (sexp, regen.widen_sexp(sexp))
+        decl = "/%s/%s%s%s" % (txt.replace("/", "\\x2f"), "s" if dotall else "", " nocase" if nocase else "", " " + wide if wide else "")
         bufs = [recheck.make_buffer(r, [sexp], r.choice([3, 8, 20, 40, 90]), regen.ALPHA + b"\n\0\xff") for _ in range(4)]
-        items.append((decl, sexp, bufs, {"shape": shape(ast), "nocase": nocase, "dotall": dotall}))
+        meta_ = {"shape": shape(ast) + ("/" + wide.replace(" ", "+") if wide else ""), "nocase": nocase, "dotall": dotall}
+        if regen.has_looped_nullable_rep(ast):
+            meta_["known_missed_key"] = "counted-repeat-of-nullable-group"
+        items.append((decl, sexp, bufs, meta_))
     agree, total, nontriv, rejected = recheck.compare(chk, model, hscan, items, "regex")
     # the `matches` operator on string externals (no NUL bytes)
     nm = 80 if tier == "quick" else 1200
@@ -44,7 +52,7 @@ def run(chk):
         lit = "/%s/%s%s" % (regen.re_print(ast).replace("/", "\\x2f"), "i" if icase else "", "s" if dotall else "")
         subj = bytes(b for b in recheck.make_buffer(r, [sexp], r.choice([0, 1, 4, 12, 30]), regen.ALPHA + b"\n") if b != 0)
         src = "rule m { condition: ext_s matches %s }" % lit
-        meta.append((src, subj))
+        meta.append((src, subj, regen.has_looped_nullable_rep(ast)))
         cases.append(("m%d" % i, ["newcompiler", "defs ext_s " + hx(b"x"), "add " + hx(src.encode()), "getrules", "scanner 0",
                                    "sdefs ext_s " + hx(subj), "scan " + hx(b"z")]))
         mq.append("rem %s %s" % (hx(subj), sexp))
@@ -55,7 +63,7 @@ def run(chk):
         mr = mres[i]
         lines = out.get("m%d" % i, [])
         sc = [l for l in lines if l.startswith("scan msgs=")]
-        src, subj = meta[i]
+        src, subj, looped_nullable = meta[i]
         replay = {"rule": src, "subject_hex": hx(subj), "model": mr, "impl": lines[-3:]}
         if any(l.startswith("crash") for l in lines):
             chk.violation("crash:matches", "matches operator crashes: %s" % lines[-2:], replay)
@@ -71,6 +79,9 @@ def run(chk):
         if impl != mr and mr == "1" and first == len(subj):
             chk.violation("matches-only-empty-at-end", "`%s` on %r: the expression matches only the empty string at the end of the operand; "
                           "implementation says no match" % (src[:160], subj), replay)
+        elif impl != mr and impl == "0" and looped_nullable:
+            chk.violation("counted-repeat-of-nullable-group", "`%s` on %r: implementation says no match, regex semantics says match (a counted repeat "
+                          "{n,..} with n >= 3 over a group that can match the empty string)" % (src[:160], subj), replay)
         elif impl != mr:
             chk.violation("matches-operator", "`%s` on %r: implementation %s, regex semantics %s" % (src[:160], subj, impl, mr), replay)
         else:
@@ -82,11 +93,35 @@ def run(chk):
     if len([l for l in pl if l.startswith("scan msgs=")]) < 2:
         chk.violation("quantified-zero-width-assertion", "scanning 'cy abc cycy xx' with /(\\B)*?cy/ does not terminate (killed after 4 s): %s" % pl[-2:],
                       {"rule": "rule h { strings: $a = /(\\B)*?cy/ condition: $a }", "buffer": "cy abc cycy xx", "output": pl[-3:]})
+    # probe of the known finding: counted repeat (n >= 4, or 3..m) of a group that can match the empty string
+    pout, _ = vlib.run_cases(hscan, [("nrep", ["newcompiler", "add " + hx(b'rule n { strings: $a = /(x?){4}aa/ $b = /(x?){3}aa/ condition: any of them }'), "getrules",
+                                               "scanner 0", "scan " + hx(b"aaa1")])], timeout=60, args=["10"])
+    pn = [l for l in pout.get("nrep", []) if l.startswith("scan msgs=")]
+    if pn and "$b=0/" in pn[0] and "$a=0/" not in pn[0]:
+        chk.violation("counted-repeat-of-nullable-group", "/(x?){4}aa/ does not match 'aaa1' at 0 although /(x?){3}aa/ does: %s" % pn[0][:160],
+                      {"rule": "rule n { strings: $a = /(x?){4}aa/ $b = /(x?){3}aa/ condition: any of them }", "buffer": "aaa1"})
+    # probe of the known finding: a match longer than YR_RE_SCAN_LIMIT bytes is never found
+    K = vlib.consts()
+    lim = int(K.get("YR_RE_SCAN_LIMIT", 1024))
+    reps = lim // 2 + 1
+    lsrc = "rule l { strings: $a = /(ab){%d}c/ condition: $a }" % reps
+    ssrc = "rule l { strings: $a = /(ab){%d}c/ condition: $a }" % (lim // 2 - 2)
+    pout, _ = vlib.run_cases(hscan, [("lim", ["newcompiler", "add " + hx(lsrc.encode()), "getrules", "scanner 0", "scan " + hx(b"x" + b"ab" * reps + b"c")]),
+                                     ("lim0", ["newcompiler", "add " + hx(ssrc.encode()), "getrules", "scanner 0", "scan " + hx(b"x" + b"ab" * (lim // 2 - 2) + b"c")])],
+                             timeout=120, args=["30"])
+    l1 = [l for l in pout.get("lim", []) if l.startswith("scan msgs=")]
+    l0 = [l for l in pout.get("lim0", []) if l.startswith("scan msgs=")]
+    if not l0 or "M:default:l" not in l0[0]:
+        chk.violation("scan-limit-probe", "a regexp matching %d bytes (below YR_RE_SCAN_LIMIT) is not found: %s" % (lim - 3, pout.get("lim0", [])[-2:]),
+                      {"rule": ssrc}, found_input=True)
+    if l1 and "M:default:l" not in l1[0]:
+        chk.violation("match-longer-than-scan-limit", "/(ab){%d}c/ does not match 'x' + 'ab' * %d + 'c': matches longer than YR_RE_SCAN_LIMIT = %d bytes are never found"
+                      % (reps, reps, lim), {"rule": lsrc, "buffer": "x + ab*%d + c" % reps, "output": l1[-1][:200]})
     chk.note(evaluations=total + nm, distinct_nontrivial=len(nontriv), traces_validated_against_impl=agree + magree, rejected_at_compile_time=rejected,
              rule="regex ASTs (literals incl. NUL/high bytes, dot with/without /s, classes with ranges and negation, \\w\\s\\d and their complements, "
-                  "groups, alternation incl. empty branch, greedy and lazy * + ? {n} {n,} {n,m}, ^ $ \\b \\B, nocase) containing a literal run, "
+                  "groups, alternation incl. empty branch, greedy and lazy * + ? {n} {n,} {n,m}, ^ $ \\b \\B, nocase, wide and ascii wide) containing a literal run, "
                   "printed by the generator, x buffers with planted members of the language; offsets must equal the reference's offsets of "
                   "non-empty matches, lengths must be admissible; plus the `matches` operator on string externals; distinct = (shape, #matches class, match at 0)")
     chk.sample({"string": items[0][0], "sexp": items[0][1], "buffer_hex": hx(items[0][2][0])})
     chk.sample({"matches_rule": meta[0][0], "subject_hex": hx(meta[0][1])})
-    chk.assumptions += ["ascii regular expressions only (wide and fullword regex strings are not generated)", "buffers shorter than YR_RE_SCAN_LIMIT"]
+    chk.assumptions += ["fullword regex strings are not generated", "generated matches are shorter than YR_RE_SCAN_LIMIT (longer ones: known finding)"]
